@@ -327,6 +327,12 @@ struct _spawn_future_op_base {
         while (!evt_.ready())
           ;
 
+        // the state we read before synchronizing may be stale: an operation
+        // that completes with set_value() publishes the value state before it
+        // stores the values, and changes the state to error if storing them
+        // throws; the final state is published through evt_
+        state = state_.load(std::memory_order_relaxed);
+
         // having synchronized with evt_, we can now clean up
         deleter_(this, state);
 
